@@ -373,9 +373,12 @@ func checkRealmDiscipline(r *Reporter, p *Prog) {
 							okPrefix, okFilter = true, true
 						}
 					}
-					if objOfIdent(info, x.Fun) == params[2] && len(x.Args) >= 1 {
-						if sl, ok := ast.Unparen(x.Args[0]).(*ast.SliceExpr); ok && sl.High == nil && sl.Low != nil {
-							if lc, ok := ast.Unparen(sl.Low).(*ast.CallExpr); ok && exprKey(lc.Fun) == "len" && len(lc.Args) == 1 && isP(lc.Args[0], pt, 0) {
+					if (objOfIdent(info, x.Fun) == params[2] || f.IsVar(x.Fun, pt, params[2])) && len(x.Args) >= 1 {
+						// the key handed to the consumer, through literal/helper parameters: <key>[len(realm):]
+						ka, kpt := f.Resolve(x.Args[0], pt)
+						if sl, ok := ast.Unparen(ka).(*ast.SliceExpr); ok && sl.High == nil && sl.Low != nil {
+							lo, lpt := f.Resolve(sl.Low, kpt)
+							if lc, ok := ast.Unparen(lo).(*ast.CallExpr); ok && exprKey(lc.Fun) == "len" && len(lc.Args) == 1 && isP(lc.Args[0], lpt, 0) {
 								okStrip = true
 							}
 						}
@@ -464,6 +467,31 @@ func checkCopyDiscipline(r *Reporter, p *Prog) {
 			par := stack[len(stack)-2]
 			if c, ok := par.(*ast.CallExpr); ok && copyFuncs[exprKey(c.Fun)] {
 				return true
+			}
+			// handed to a visitor: a call of a function-typed PARAMETER of this method. The obligation
+			// moves to the literals the callers pass for that parameter, whose matching parameter is raw.
+			if c, ok := par.(*ast.CallExpr); ok {
+				if vo, isVar := info.Uses[selIdent(c.Fun)].(*types.Var); isVar {
+					for pi, po := range paramObjs(info, fd) {
+						if po != vo {
+							continue
+						}
+						argIdx := -1
+						for ai, a := range c.Args {
+							if ast.Unparen(a) == ast.Expr(n.(ast.Expr)) {
+								argIdx = ai
+							}
+						}
+						if argIdx >= 0 {
+							if msg, ok := visitorsCopy(p, info, mp, fd, pi, argIdx); ok {
+								return true
+							} else if msg != "" {
+								bad = msg
+								return true
+							}
+						}
+					}
+				}
 			}
 			bad = fmt.Sprintf("%s: a []byte read from the shared map is used outside a copying call; the caller would alias stored data", p.posStr(n.Pos()))
 			return true
@@ -968,3 +996,76 @@ func checkFlushAfter(r *Reporter, p *Prog, pkg, typ, m, field string) {
 }
 
 var _ = token.ADD
+
+// visitorsCopy: method fd hands a raw stored value to its paramIdx-th parameter (a function) as
+// argument argIdx. Every call of fd in the package must pass a function literal there, and inside
+// each literal the matching parameter is used only as an argument of a copying function.
+func visitorsCopy(p *Prog, info *types.Info, pkg string, fd *ast.FuncDecl, paramIdx, argIdx int) (string, bool) {
+	target, _ := info.Defs[fd.Name].(*types.Func)
+	if target == nil || fd.Name.IsExported() {
+		return "", false
+	}
+	n := 0
+	for _, caller := range p.AllFuncDecls(pkg) {
+		if caller.Body == nil {
+			continue
+		}
+		msg := ""
+		ast.Inspect(caller.Body, func(m ast.Node) bool {
+			c, ok := m.(*ast.CallExpr)
+			if !ok || msg != "" {
+				return true
+			}
+			fn := staticCallee(info, c)
+			if fn == nil || fn.Origin() != target || paramIdx >= len(c.Args) {
+				return true
+			}
+			n++
+			lit, isLit := ast.Unparen(c.Args[paramIdx]).(*ast.FuncLit)
+			if !isLit {
+				msg = p.posStr(c.Pos()) + ": the visitor handed to " + fd.Name.Name + " is not a function literal: cannot establish that the stored []byte it receives is copied"
+				return true
+			}
+			var raw types.Object
+			k := 0
+			for _, fl := range lit.Type.Params.List {
+				for _, nm := range fl.Names {
+					if k == argIdx {
+						raw = info.Defs[nm]
+					}
+					k++
+				}
+				if len(fl.Names) == 0 {
+					k++
+				}
+			}
+			if raw == nil {
+				return true // the visitor ignores the value (blank parameter)
+			}
+			var stack []ast.Node
+			ast.Inspect(lit.Body, func(q ast.Node) bool {
+				if q == nil {
+					stack = stack[:len(stack)-1]
+					return true
+				}
+				stack = append(stack, q)
+				id, isId := q.(*ast.Ident)
+				if !isId || info.Uses[id] != raw {
+					return true
+				}
+				if len(stack) >= 2 {
+					if pc, ok := stack[len(stack)-2].(*ast.CallExpr); ok && copyFuncs[exprKey(pc.Fun)] {
+						return true
+					}
+				}
+				msg = p.posStr(id.Pos()) + ": the visitor uses the stored []byte it is handed outside a copying call; the snapshot would alias stored data"
+				return true
+			})
+			return true
+		})
+		if msg != "" {
+			return msg, false
+		}
+	}
+	return "", n > 0
+}
